@@ -19,7 +19,7 @@ import (
 func init() { register(&Engine{Name: "C12", Run: runC12, Bubble: true}) }
 
 func c12Domain() Domain {
-	return Domain{EmptyStringElems: true, NilPtrElems: true, ZeroTimeElems: true, BigStrings: false, BigBinaries: false,
+	return Domain{EmptyStringElems: true, NilPtrElems: true, ZeroTimeElems: true, BigStrings: true, BigBinaries: true,
 		FarDates: true, AllDoubles: true, MaxListLen: 6, MaxMapLen: 4}
 }
 
@@ -28,10 +28,11 @@ const (
 	c12ToObject
 	c12WriteRead
 	c12Stream
+	c12DecodeForeign
 	nC12Op
 )
 
-var c12OpNames = []string{"ToBytes", "ToBytes+ToObject", "WriteTo+ReadFrom", "stream(WriteObject x2, ReadObject x2)"}
+var c12OpNames = []string{"ToBytes", "ToBytes+ToObject", "WriteTo+ReadFrom", "stream(WriteObject x2, ReadObject x2)", "ToObject(stream of a peer: evolved class / foreign encodings)"}
 
 type c12Op struct {
 	kind int
@@ -83,7 +84,8 @@ func (r *c12Res) equal(o *c12Res) bool {
 }
 
 type c12Shared struct {
-	inputs []interface{}
+	inputs  []interface{}
+	foreign [][]byte // byte streams of a peer (evolved classes with unknown fields, non-canonical encodings)
 }
 
 // c12Inst is the instance a task owns: a Serializer, or an Encoder + Decoder pair.
@@ -161,6 +163,13 @@ func c12Exec(in *c12Inst, sh *c12Shared, op c12Op) (res *c12Res) {
 		} else {
 			addVal(in.dec.ReadFrom(rd))
 		}
+	case c12DecodeForeign:
+		b := sh.foreign[op.a%len(sh.foreign)]
+		if in.ser != nil {
+			addVal(in.ser.ToObject(b))
+		} else {
+			addVal(in.dec.Decode(b))
+		}
 	case c12Stream:
 		var buf bytes.Buffer
 		if in.ser != nil {
@@ -195,6 +204,15 @@ func runC12(ch *Choices, cfg *RunCfg) (o *Outcome) {
 	for i := 0; i < nin; i++ {
 		sh.inputs = append(sh.inputs, g.Value())
 	}
+	nforeign := ch.Range(1, 4, "nforeign")
+	for i := 0; i < nforeign; i++ {
+		if ch.Intn(3, "foreign.kind") == 0 {
+			b, _, _ := foreignStream(ch, false)
+			sh.foreign = append(sh.foreign, b)
+		} else {
+			sh.foreign = append(sh.foreign, foreignEvolvedObject(ch))
+		}
+	}
 	var ntasks int
 	switch ch.Pick([]int{55, 30, 10, 5}, "ntasks.kind") {
 	case 0:
@@ -217,7 +235,11 @@ func runC12(ch *Choices, cfg *RunCfg) (o *Outcome) {
 			n = 2
 		}
 		for i := 0; i < n && opBudget > 0; i++ {
-			scripts[t] = append(scripts[t], c12Op{kind: ch.Intn(nC12Op, "op.kind"), a: ch.Intn(nin, "op.a"), b: ch.Intn(nin, "op.b")})
+			op := c12Op{kind: ch.Intn(nC12Op, "op.kind"), a: ch.Intn(nin, "op.a"), b: ch.Intn(nin, "op.b")}
+			if op.kind == c12DecodeForeign {
+				op.a = ch.Intn(nforeign, "op.foreign")
+			}
+			scripts[t] = append(scripts[t], op)
 			opBudget--
 		}
 	}
@@ -372,6 +394,7 @@ func runC12(ch *Choices, cfg *RunCfg) (o *Outcome) {
 			}
 			o.fail("c12/result", c12OpNames[scripts[t][i].kind], "%d tasks (pooled=%v pair=%v policy=%d q=%d): task %d op #%d %s(input %d) returned %s, but alone it returns %s; the sequential control agrees with the solo result",
 				ntasks, pooled, pair, policy, meanQ, t, i, c12OpNames[scripts[t][i].kind], scripts[t][i].a, gs, expected[t][i].String())
+			_ = nforeign
 		}
 	}
 	for i, v := range sh.inputs {
